@@ -350,7 +350,7 @@ func workerMain(prop *Property, build, verif, tier string, seed int64, worker, w
 			stats.PermVectors[stats.curVec^w.Hash()] = 1
 		}
 		if worker == 0 && len(stats.Samples) < 3 && nontrivial {
-			stats.Samples = append(stats.Samples, json.RawMessage(mustJSON(map[string]any{"world": w, "params": json.RawMessage(pj)})))
+			stats.Samples = append(stats.Samples, json.RawMessage(mustJSON(map[string]any{"world": compactWorld(w), "params": compactJSON(pj)})))
 		}
 		stats.mu.Unlock()
 		var unknown *Violation
@@ -468,6 +468,58 @@ func runBatch(seed uint64, n int, body func(*rapid.T), stats *Stats) (failed boo
 		}
 		body(t)
 	})
+}
+
+// compactWorld / compactJSON keep evidence samples readable: long file contents and long strings are cut (the replay
+// files, not the evidence, are the complete record of a scenario).
+func compactWorld(w *World) map[string]string {
+	out := map[string]string{}
+	for k, v := range w.Files {
+		t := v.Text
+		if v.B64 != "" {
+			t = "(base64) " + v.B64
+		}
+		if len(t) > 400 {
+			t = t[:400] + fmt.Sprintf("...(%d bytes)", len(t))
+		}
+		out[k] = t
+	}
+	return out
+}
+
+func compactJSON(raw []byte) any {
+	var v any
+	if json.Unmarshal(raw, &v) != nil {
+		return string(raw)
+	}
+	var walk func(x any, depth int) any
+	walk = func(x any, depth int) any {
+		switch t := x.(type) {
+		case string:
+			if len(t) > 300 {
+				return t[:300] + fmt.Sprintf("...(%d bytes)", len(t))
+			}
+			return t
+		case []any:
+			if len(t) > 12 {
+				t = append(append([]any{}, t[:12]...), fmt.Sprintf("...(%d items)", len(t)))
+			}
+			for i := range t {
+				t[i] = walk(t[i], depth+1)
+			}
+			return t
+		case map[string]any:
+			if _, isWorld := t["files"]; isWorld && depth > 0 {
+				return "(a world; see the replay file of a failing scenario for the full form)"
+			}
+			for k := range t {
+				t[k] = walk(t[k], depth+1)
+			}
+			return t
+		}
+		return x
+	}
+	return walk(v, 0)
 }
 
 func mustJSON(v any) []byte {
